@@ -27,6 +27,7 @@
 #include "util.h"
 #include "vector.h"
 #include "util.h"
+#include "state.h"
 #endif
 
 #ifdef JANET_PEG
@@ -648,14 +649,25 @@ tail:
                     }
                     break;
                 case JANET_CFUNCTION:
-                    cap = janet_unwrap_cfunction(constant)(s->captures->count - cs.cap,
-                                                           s->captures->data + cs.cap);
+                case JANET_FUNCTION: {
+                    /* The callee may start another match, which gets a depth counter of its own: while
+                     * it runs, charge the depth this match has used so far (and the call itself) to the
+                     * C stack guard of the VM, so that nested matches share one stack budget. */
+                    int32_t used = JANET_RECURSION_GUARD - s->depth + 1;
+                    if (janet_vm.stackn + used > JANET_RECURSION_GUARD)
+                        janet_panic("C stack recursed too deeply");
+                    janet_vm.stackn += used;
+                    if (janet_checktype(constant, JANET_CFUNCTION)) {
+                        cap = janet_unwrap_cfunction(constant)(s->captures->count - cs.cap,
+                                                               s->captures->data + cs.cap);
+                    } else {
+                        cap = janet_call(janet_unwrap_function(constant),
+                                         s->captures->count - cs.cap,
+                                         s->captures->data + cs.cap);
+                    }
+                    janet_vm.stackn -= used;
                     break;
-                case JANET_FUNCTION:
-                    cap = janet_call(janet_unwrap_function(constant),
-                                     s->captures->count - cs.cap,
-                                     s->captures->data + cs.cap);
-                    break;
+                }
             }
             cap_load_keept(s, cs);
             if (rule[0] == RULE_MATCHTIME && !janet_truthy(cap)) return NULL;
